@@ -128,6 +128,9 @@ pub struct FuncDef {
     /// takes one `ptr<function, u32>` parameter (instead of the value parameter)
     #[serde(default, skip_serializing_if = "is_false")]
     pub ptr: bool,
+    /// with `ptr`: the pointee is this struct (a function-local variable of that type is passed) instead of u32
+    #[serde(default, skip_serializing_if = "Option::is_none")]
+    pub ptr_struct: Option<String>,
     #[serde(default)]
     pub body: Vec<Node>,
 }
